@@ -82,11 +82,12 @@ def model_dict(spec: dict) -> dict:
             "y": noise,
             "event": "weibull-right-censored-with-sources" if ns else "weibull-right-censored",
         }
-        d["nb_events"] = 1
-        p["log_rho_mean"] = [0.6 + 0.2 * v]
-        p["n_log_nu_mean"] = [-1.8 + 0.3 * v]
+        ne = int(spec.get("ne", 1))  # number of competing events (hyperparameter nb_events)
+        d["nb_events"] = ne
+        p["log_rho_mean"] = [round(0.6 + 0.2 * v - 0.3 * e, 6) for e in range(ne)]
+        p["n_log_nu_mean"] = [round(-1.8 + 0.3 * v - 0.2 * e, 6) for e in range(ne)]
         if ns:
-            p["zeta_mean"] = [[0.05 * (j + 1) * (-1) ** j + 0.02 * v] for j in range(ns)]
+            p["zeta_mean"] = [[round((0.05 * (j + 1) * (-1) ** j + 0.02 * v) * (-1) ** e, 6) for e in range(ne)] for j in range(ns)]
     if kind == "mixture_logistic":
         d["n_clusters"] = 2
         p["probs"] = [0.6, 0.4]
